@@ -293,6 +293,7 @@ Definition signer_request (q : request) (h : ReqHeaders.headers) : Signer.reques
   {| Signer.r_method := rq_method q; Signer.r_host := rq_host q; Signer.r_headers := to_signer_headers h;
      Signer.r_path := rq_path q; Signer.r_rawquery := rq_rawquery q; Signer.r_fragment := [];
      Signer.r_body := Some (rq_body q); Signer.r_chunked := rq_chunked q;
+     Signer.r_clen := N.of_nat (length (rq_body q));   (* Request.ContentLength of a sized request = its body's length *)
      Signer.r_sso_sig := None; Signer.r_kid := None; Signer.r_gap_sig := None |}.
 
 (* reverse_proxy.go:115-131 (order: deleteCookie > sign > [timeout] > ReverseProxy), then the transport *)
